@@ -570,12 +570,42 @@ func (t *transpiler) evaluateGroup(group parser.Group, valueUsed bool) (expressi
 	return t.evaluateExpression(group.Child(), valueUsed)
 }
 
+// isValueExpressionStatement returns true if the statement is an expression which is only
+// evaluated for its value (no function/program call).
+func isValueExpressionStatement(statement parser.Statement) bool {
+	if _, ok := statement.(parser.Expression); !ok {
+		return false
+	}
+	switch statement.StatementType() {
+	case parser.STATEMENT_TYPE_FUNCTION_CALL, parser.STATEMENT_TYPE_APP_CALL:
+		return false
+	}
+	return true
+}
+
 func (t *transpiler) evaluateBlock(block parser.Block) error {
 	body := block.Body()
 	length := len(body)
 
 	if length == 0 {
 		return t.converter.Nop()
+	}
+	// A block which only consists of value expressions (e.g. a variable or a literal on its own line)
+	// might not result in any code, so a no-operation is added to keep the block valid for the target.
+	onlyValueExpressions := true
+
+	for _, statement := range body {
+		if !isValueExpressionStatement(statement) {
+			onlyValueExpressions = false
+			break
+		}
+	}
+	if onlyValueExpressions {
+		err := t.converter.Nop()
+
+		if err != nil {
+			return err
+		}
 	}
 	for index, statement := range body {
 		err := t.evaluate(statement)
